@@ -217,15 +217,10 @@ def run_case(case, cnt=None, root=None):
         for k, v in c.items():
             cnt[k] = cnt.get(k, 0) + v
         cnt["reference_comparisons"] += 1
-        if verdict == "violation":
-            from vlib.findings import definitional_cycle
-            known = None
-            if o.cls == "internal" and o.exc_type == "DeferredCycle" and definitional_cycle([t for _, t in files] + [texts[f.name] for f in prog.aux.values()]):
-                known = "definitional-cycle"
-            v = {"what": "reference layout: " + "; ".join(msgs), "case": case}
-            if known:
-                v["known_key"] = known
-            out.append(v)
+        if verdict == "violation" and refcheck.known_cycle(o, texts):
+            cnt["excluded_known_cycle"] = cnt.get("excluded_known_cycle", 0) + 1      # the listed C08 finding; not judged here
+        elif verdict == "violation":
+            out.append({"what": "reference layout: " + "; ".join(msgs), "case": case})
         elif verdict == "unmodelled":
             pass
         if o.cls == "ok" and not o.errors:
